@@ -28,6 +28,9 @@ pub enum Act {
     /// 5 the same pair twice, both with an inconsistent settlement
     BadUpdate(u8),
     SetOrder(u8),
+    /// every quote of the market handed over again (latest value and form) with the settlement date 0 none, 1 day 19900,
+    /// 2 day 19907: a valid update whatever the current settlement date is
+    Roll(u8),
 }
 
 #[derive(Clone, Debug, Serialize, Deserialize)]
@@ -36,11 +39,15 @@ pub struct Market {
     pub quotes: Vec<(usize, usize)>,
     pub settle: bool,
     pub base: Option<usize>,
+    /// settlement codes offered as Act::Roll targets in the exploration of this market
+    #[serde(default)]
+    pub rolls: Vec<u8>,
 }
 
 #[derive(Clone, Debug, Serialize, Deserialize)]
 pub enum Case {
-    /// quote forms: 0 float, 1 Dual with own variable, 2 Dual2 with own variable; order 1 or 2
+    /// quote forms: 0 float, 1 Dual with own variable, 2 Dual2 with own variable, 3 / 4 Dual / Dual2 whose variable carries
+    /// the automatic name of the next quote in the list, 5 / 6 likewise of the previous quote; order 1 or 2
     Sens { n: usize, quotes: Vec<(usize, usize)>, forms: Vec<u8>, base: Option<usize>, order: u8 },
     /// BFS over all histories of this market (values per quote from a table of `nvals`)
     Explore { market: Market, nvals: u8 },
@@ -111,7 +118,26 @@ fn check_sens(case: &Case, idx: u64, acc: &mut Acc) {
         _ => unreachable!(),
     };
     let cj = || serde_json::to_value(case).unwrap();
-    let rates: Vec<FXRate> = quotes.iter().enumerate().map(|(i, (a, b))| FXRate::try_new(CCYS[*a], CCYS[*b], quote_number(i, QV[i], forms[i]), None).unwrap()).collect();
+    // expected variable names and the chain factor of each quote's own variable; forms 3 / 4 (5 / 6) are Dual / Dual2
+    // quotes whose own variable carries the automatic name of the NEXT (PREVIOUS) quote in the list
+    let m_ = quotes.len();
+    let tag = |e: usize| format!("fx_{}{}", CCYS[quotes[e].0], CCYS[quotes[e].1]);
+    let qnames: Vec<String> = (0..m_)
+        .map(|i| match forms[i] {
+            0 => tag(i),
+            1 | 2 => format!("q{}", i),
+            3 | 4 => tag((i + 1) % m_),
+            _ => tag((i + m_ - 1) % m_),
+        })
+        .collect();
+    let number_of = |i: usize| -> Number {
+        match forms[i] {
+            0 | 1 | 2 => quote_number(i, QV[i], forms[i]),
+            3 | 5 => Number::Dual(Dual::try_new(QV[i], vec![qnames[i].clone()], vec![GOWN]).unwrap()),
+            _ => Number::Dual2(Dual2::try_new(QV[i], vec![qnames[i].clone()], vec![GOWN], vec![]).unwrap()),
+        }
+    };
+    let rates: Vec<FXRate> = quotes.iter().enumerate().map(|(i, (a, b))| FXRate::try_new(CCYS[*a], CCYS[*b], number_of(i), None).unwrap()).collect();
     let mut fx = match FXRates::try_new(rates, base.map(ccy)) {
         Ok(f) => f,
         Err(_) => {
@@ -123,8 +149,14 @@ fn check_sens(case: &Case, idx: u64, acc: &mut Acc) {
         acc.violate("sens/set_ad_order", idx, cj(), json!(order), json!(kind(&fx)));
         return;
     }
-    // expected variable names and the chain factor of each quote's own variable
-    let names: Vec<String> = quotes.iter().enumerate().map(|(i, (a, b))| if forms[i] == 0 { format!("fx_{}{}", CCYS[*a], CCYS[*b]) } else { format!("q{}", i) }).collect();
+    // distinct variables, and for each the quotes that depend on it
+    let mut names: Vec<String> = vec![];
+    for nm in qnames.iter() {
+        if !names.contains(nm) {
+            names.push(nm.clone());
+        }
+    }
+    let group: Vec<Vec<usize>> = names.iter().map(|nm| (0..m_).filter(|e| &qnames[*e] == nm).collect()).collect();
     let gfac: Vec<f64> = forms.iter().map(|f| if *f == 0 { 1.0 } else { GOWN }).collect();
     for a in 0..n {
         for b in 0..n {
@@ -144,7 +176,8 @@ fn check_sens(case: &Case, idx: u64, acc: &mut Acc) {
                     continue;
                 }
             };
-            let want_g: Vec<f64> = s.iter().enumerate().map(|(e, se)| *se as f64 * r / QV[e] * gfac[e]).collect();
+            let want_q: Vec<f64> = s.iter().enumerate().map(|(e, se)| *se as f64 * r / QV[e] * gfac[e]).collect();
+            let want_g: Vec<f64> = group.iter().map(|g| g.iter().map(|e| want_q[*e]).sum()).collect();
             let pair = format!("{}{}", CCYS[a], CCYS[b]);
             let (g, carried): (Vec<f64>, Vec<String>) = match &got {
                 Number::Dual(d) if order == 1 => (d.gradient1(names.clone()).to_vec(), d.vars().iter().cloned().collect()),
@@ -163,10 +196,11 @@ fn check_sens(case: &Case, idx: u64, acc: &mut Acc) {
                     acc.violate("sens/variable-name", idx, cj(), json!({"pair": pair, "allowed": names}), json!(c));
                 }
             }
-            for e in 0..quotes.len() {
-                if !close_scaled(g[e], want_g[e], 1e-11, want_g[e].abs().max(r.abs() * 1e-3)) {
+            for e in 0..names.len() {
+                let gs: f64 = group[e].iter().map(|q| want_q[*q].abs()).sum();
+                if !close_scaled(g[e], want_g[e], 1e-11, gs.max(r.abs() * 1e-3)) {
                     acc.violate(
-                        if s[e] == 0 { "sens/first-order/off-path" } else if forms[e] == 0 { "sens/first-order/float-quote" } else { "sens/first-order/dual-quote" },
+                        if group[e].len() > 1 { "sens/first-order/shared-variable" } else if s[group[e][0]] == 0 { "sens/first-order/off-path" } else if forms[group[e][0]] == 0 { "sens/first-order/float-quote" } else { "sens/first-order/dual-quote" },
                         idx,
                         cj(),
                         json!({"pair": pair, "variable": names[e], "want": want_g[e]}),
@@ -176,17 +210,25 @@ fn check_sens(case: &Case, idx: u64, acc: &mut Acc) {
             }
             if let Number::Dual2(d) = &got {
                 let h = d.gradient2(names.clone());
-                for e in 0..quotes.len() {
-                    for f in 0..quotes.len() {
-                        let w = if e == f {
-                            (s[e] * (s[e] - 1)) as f64 * r / (QV[e] * QV[e]) * gfac[e] * gfac[e]
-                        } else {
-                            (s[e] * s[f]) as f64 * r / (QV[e] * QV[f]) * gfac[e] * gfac[f]
-                        };
-                        let scale = (r / (QV[e] * QV[f]) * gfac[e] * gfac[f]).abs();
+                let wq = |e: usize, f: usize| -> f64 {
+                    if e == f {
+                        (s[e] * (s[e] - 1)) as f64 * r / (QV[e] * QV[e]) * gfac[e] * gfac[e]
+                    } else {
+                        (s[e] * s[f]) as f64 * r / (QV[e] * QV[f]) * gfac[e] * gfac[f]
+                    }
+                };
+                for e in 0..names.len() {
+                    for f in 0..names.len() {
+                        let (mut w, mut scale) = (0.0, 0.0);
+                        for qe in group[e].iter() {
+                            for qf in group[f].iter() {
+                                w += wq(*qe, *qf);
+                                scale += (r / (QV[*qe] * QV[*qf]) * gfac[*qe] * gfac[*qf]).abs();
+                            }
+                        }
                         if !close_scaled(h[[e, f]], w, 1e-10, scale) {
                             acc.violate(
-                                if e == f { "sens/second-order/diagonal" } else { "sens/second-order/cross" },
+                                if group[e].len() > 1 || group[f].len() > 1 { "sens/second-order/shared-variable" } else if e == f { "sens/second-order/diagonal" } else { "sens/second-order/cross" },
                                 idx,
                                 cj(),
                                 json!({"pair": pair, "variables": [names[e].clone(), names[f].clone()], "want": w}),
@@ -211,6 +253,8 @@ pub struct St {
     pub fx: FXRates,
     /// per quote: (value index, form 0/1/2)
     pub shadow: Vec<(u8, u8)>,
+    /// settlement date code of the latest quotes (see Act::Roll)
+    pub settle: u8,
     pub bad: Option<(String, String)>,
     pub key: String,
 }
@@ -226,11 +270,11 @@ impl Hash for St {
     }
 }
 
-fn settle_date(m: &Market) -> Option<NaiveDateTime> {
-    if m.settle {
-        Some(to_ndt(19900))
-    } else {
-        None
+fn settle_of(code: u8) -> Option<NaiveDateTime> {
+    match code {
+        0 => None,
+        1 => Some(to_ndt(19900)),
+        _ => Some(to_ndt(19907)),
     }
 }
 
@@ -238,7 +282,7 @@ fn qval(i: usize, vi: u8) -> f64 {
     QV[i] * [1.0, 1.0625, 0.875][vi as usize]
 }
 
-fn mk_rate(m: &Market, i: usize, vi: u8, form: u8) -> FXRate {
+fn mk_rate(m: &Market, sc: u8, i: usize, vi: u8, form: u8) -> FXRate {
     let (a, b) = m.quotes[i];
     let v = qval(i, vi);
     let num = match form {
@@ -246,7 +290,7 @@ fn mk_rate(m: &Market, i: usize, vi: u8, form: u8) -> FXRate {
         1 => Number::Dual(Dual::new(v, vec![format!("u{}", i)])),
         _ => Number::Dual2(Dual2::try_new(v, vec![format!("u{}", i)], vec![1.0], vec![0.125]).unwrap()),
     };
-    FXRate::try_new(CCYS[a], CCYS[b], num, settle_date(m)).unwrap()
+    FXRate::try_new(CCYS[a], CCYS[b], num, settle_of(sc)).unwrap()
 }
 
 fn number_key(x: &Number) -> String {
@@ -292,11 +336,12 @@ fn state_key(fx: &FXRates, shadow: &[(u8, u8)], bad: &Option<(String, String)>) 
 }
 
 fn init_state(m: &Market) -> St {
-    let rates: Vec<FXRate> = (0..m.quotes.len()).map(|i| mk_rate(m, i, 0, 0)).collect();
+    let settle = m.settle as u8;
+    let rates: Vec<FXRate> = (0..m.quotes.len()).map(|i| mk_rate(m, settle, i, 0, 0)).collect();
     let fx = FXRates::try_new(rates, m.base.map(ccy)).expect("valid market");
     let shadow = vec![(0u8, 0u8); m.quotes.len()];
-    let key = state_key(&fx, &shadow, &None);
-    St { fx, shadow, bad: None, key }
+    let key = format!("{}|s{}", state_key(&fx, &shadow, &None), settle);
+    St { fx, shadow, settle, bad: None, key }
 }
 
 fn all_values(fx: &FXRates) -> Vec<f64> {
@@ -367,6 +412,7 @@ fn same_at_order(x: &FXRates, y: &FXRates, order: u8) -> Result<(), String> {
 pub fn apply(m: &Market, st: &St, act: &Act) -> St {
     let mut fx = st.fx.clone();
     let mut shadow = st.shadow.clone();
+    let mut settle = st.settle;
     let mut bad: Option<(String, String)> = st.bad.clone();
     let before_vals = all_values(&fx);
     let before_key_core = state_key(&fx, &[], &None);
@@ -377,14 +423,14 @@ pub fn apply(m: &Market, st: &St, act: &Act) -> St {
     };
     let r = guarded(|| match act {
         Act::Update { items, form } => {
-            let list: Vec<FXRate> = items.iter().map(|(i, vi)| mk_rate(m, *i, *vi, *form)).collect();
+            let list: Vec<FXRate> = items.iter().map(|(i, vi)| mk_rate(m, settle, *i, *vi, *form)).collect();
             let res = fx.update(list).is_ok();
             (res, true)
         }
         Act::BadUpdate(k) => {
             let (a0, b0) = m.quotes[0];
-            let sd = settle_date(m);
-            let other_sd = if m.settle { None } else { Some(to_ndt(19901)) };
+            let sd = settle_of(settle);
+            let other_sd = if settle != 0 { None } else { Some(to_ndt(19901)) };
             let foreign = FXRate::try_new(CCYS[a0], "xxx", Number::F64(3.0), sd).unwrap();
             let list: Vec<FXRate> = match k {
                 0 => vec![FXRate::try_new(CCYS[b0], CCYS[a0], Number::F64(1.0 / qval(0, 1)), sd).unwrap()],
@@ -406,11 +452,19 @@ pub fn apply(m: &Market, st: &St, act: &Act) -> St {
                 2 => vec![foreign.clone()],
                 3 => vec![FXRate::try_new(CCYS[a0], CCYS[b0], Number::F64(qval(0, 1)), other_sd).unwrap()],
                 5 => vec![FXRate::try_new(CCYS[a0], CCYS[b0], Number::F64(qval(0, 1)), other_sd).unwrap(), FXRate::try_new(CCYS[a0], CCYS[b0], Number::F64(qval(0, 2)), other_sd).unwrap()],
-                _ => vec![mk_rate(m, 0, 1, 0), foreign.clone()],
+                _ => vec![mk_rate(m, settle, 0, 1, 0), foreign.clone()],
             };
             (fx.update(list).is_ok(), false)
         }
         Act::SetOrder(o) => (fx.set_ad_order(ad(*o)).is_ok(), true),
+        Act::Roll(to) => {
+            // (supplied in reverse quote order when rolling to code 2)
+            let mut list: Vec<FXRate> = (0..m.quotes.len()).map(|i| mk_rate(m, *to, i, shadow[i].0, shadow[i].1)).collect();
+            if *to == 2 {
+                list.reverse();
+            }
+            (fx.update(list).is_ok(), true)
+        }
     });
     match (act, r) {
         (_, Err(msg)) => flag(&mut bad, "history/panic", msg),
@@ -421,6 +475,13 @@ pub fn apply(m: &Market, st: &St, act: &Act) -> St {
                 for (i, vi) in items {
                     shadow[*i] = (*vi, *form);
                 }
+            }
+        }
+        (Act::Roll(to), Ok((ok, _))) => {
+            if !ok {
+                flag(&mut bad, "history/valid-roll-refused", format!("{:?} from settlement code {}", act, settle));
+            } else {
+                settle = *to;
             }
         }
         (Act::BadUpdate(k), Ok((ok, _))) => {
@@ -449,7 +510,7 @@ pub fn apply(m: &Market, st: &St, act: &Act) -> St {
         let orig_vals = all_values(&st.fx);
         let same_vals = orig_vals.len() == before_vals.len() && orig_vals.iter().zip(before_vals.iter()).all(|(x, y)| x.to_bits() == y.to_bits() || (x.is_nan() && y.is_nan()));
         let orig_quotes = hooks::fxrates_fx_rates(&st.fx);
-        let want_quotes: Vec<FXRate> = (0..m.quotes.len()).map(|i| mk_rate(m, i, st.shadow[i].0, st.shadow[i].1)).collect();
+        let want_quotes: Vec<FXRate> = (0..m.quotes.len()).map(|i| mk_rate(m, st.settle, i, st.shadow[i].0, st.shadow[i].1)).collect();
         if !same_vals || orig_quotes != want_quotes {
             flag(&mut bad, "history/clone-shares-state", format!("the market the clone was taken from changed when {:?} was applied to the clone", act));
         }
@@ -458,13 +519,13 @@ pub fn apply(m: &Market, st: &St, act: &Act) -> St {
     if bad.is_none() {
         let stored = hooks::fxrates_fx_rates(&fx);
         for (i, r) in stored.iter().enumerate() {
-            let want = mk_rate(m, i, shadow[i].0, shadow[i].1);
+            let want = mk_rate(m, settle, i, shadow[i].0, shadow[i].1);
             if *r != want {
                 flag(&mut bad, "history/stored-quotes", format!("quote {}: {:?} but latest is {:?}", i, r, want));
             }
         }
         let base = Ccy::try_new(&hooks::fxrates_currencies(&fx)[0]).unwrap();
-        let latest: Vec<FXRate> = (0..m.quotes.len()).map(|i| mk_rate(m, i, shadow[i].0, shadow[i].1)).collect();
+        let latest: Vec<FXRate> = (0..m.quotes.len()).map(|i| mk_rate(m, settle, i, shadow[i].0, shadow[i].1)).collect();
         match FXRates::try_new(latest, Some(base)) {
             Err(_) => flag(&mut bad, "history/oracle", "fresh rebuild failed".to_string()),
             Ok(fresh) => {
@@ -482,8 +543,8 @@ pub fn apply(m: &Market, st: &St, act: &Act) -> St {
             }
         }
     }
-    let key = state_key(&fx, &shadow, &bad);
-    St { fx, shadow, bad, key }
+    let key = format!("{}|s{}", state_key(&fx, &shadow, &bad), settle);
+    St { fx, shadow, settle, bad, key }
 }
 
 pub fn actions_of(m: &Market, nvals: u8) -> Vec<Act> {
@@ -517,6 +578,9 @@ pub fn actions_of(m: &Market, nvals: u8) -> Vec<Act> {
     }
     for o in 0..3u8 {
         out.push(Act::SetOrder(o));
+    }
+    for to in m.rolls.iter() {
+        out.push(Act::Roll(*to));
     }
     out
 }
@@ -612,29 +676,50 @@ pub fn cases(tier: Tier) -> Vec<Case> {
     let nvals = tier.pick(2u8, 3u8);
     let mut markets: Vec<Market> = vec![];
     for settle in [false, true] {
-        markets.push(Market { n: 2, quotes: vec![(0, 1)], settle, base: None });
-        markets.push(Market { n: 2, quotes: vec![(1, 0)], settle, base: Some(0) });
+        markets.push(Market { n: 2, quotes: vec![(0, 1)], settle, base: None, rolls: vec![] });
+        markets.push(Market { n: 2, quotes: vec![(1, 0)], settle, base: Some(0), rolls: vec![] });
         for edges in prufer_trees(3) {
             for orient in 0..4usize {
                 let q: Vec<(usize, usize)> = edges.iter().enumerate().map(|(i, (a, b))| if orient & (1 << i) != 0 { (*b, *a) } else { (*a, *b) }).collect();
-                markets.push(Market { n: 3, quotes: q.clone(), settle, base: None });
+                markets.push(Market { n: 3, quotes: q.clone(), settle, base: None, rolls: vec![] });
                 if orient == 1 {
-                    markets.push(Market { n: 3, quotes: q, settle, base: Some(2) });
+                    markets.push(Market { n: 3, quotes: q, settle, base: Some(2), rolls: vec![] });
                 }
             }
         }
     }
     // chain and star on 4 currencies
-    markets.push(Market { n: 4, quotes: vec![(0, 1), (2, 1), (2, 3)], settle: false, base: None });
-    markets.push(Market { n: 4, quotes: vec![(1, 0), (0, 2), (3, 0)], settle: true, base: Some(3) });
+    markets.push(Market { n: 4, quotes: vec![(0, 1), (2, 1), (2, 3)], settle: false, base: None, rolls: vec![] });
+    markets.push(Market { n: 4, quotes: vec![(1, 0), (0, 2), (3, 0)], settle: true, base: Some(3), rolls: vec![] });
     for (ti, edges) in prufer_trees(4).iter().enumerate() {
         // quick: every labelled tree on 4 currencies in one (alternating) orientation; thorough: every orientation
         let orients: Vec<usize> = if tier == Tier::Thorough { (0..8).collect() } else { vec![0b010] };
         for orient in orients {
             let q: Vec<(usize, usize)> = edges.iter().enumerate().map(|(i, (a, b))| if orient & (1 << i) != 0 { (*b, *a) } else { (*a, *b) }).collect();
-            markets.push(Market { n: 4, quotes: q, settle: ti % 2 == 1, base: if ti % 3 == 0 { None } else { Some(ti % 4) } });
+            markets.push(Market { n: 4, quotes: q, settle: ti % 2 == 1, base: if ti % 3 == 0 { None } else { Some(ti % 4) }, rolls: vec![] });
         }
     }
+    // the settlement date is part of the state: every market is rolled between no date and a date (thorough tier: and a
+    // second date); in the quick tier the three-currency markets start with / without a date alternately instead of
+    // both, and the four-currency markets are not rolled
+    let mut kept: Vec<Market> = vec![];
+    let mut seen3 = [0usize; 2];
+    for mut m in markets.into_iter() {
+        if tier == Tier::Thorough {
+            m.rolls = vec![0, 1, 2];
+        } else {
+            if m.n == 3 {
+                let k = seen3[m.settle as usize];
+                seen3[m.settle as usize] += 1;
+                if m.settle != (k % 2 == 1) {
+                    continue;
+                }
+            }
+            m.rolls = if m.n <= 3 { vec![0, 1] } else { vec![] };
+        }
+        kept.push(m);
+    }
+    let markets = kept;
     for m in markets {
         let nv = if m.n == 4 { 2 } else { nvals };
         out.push(Case::Explore { market: m, nvals: nv });
@@ -649,7 +734,7 @@ pub fn cases(tier: Tier) -> Vec<Case> {
             (0..m).map(|i| if i < m / 2 { (i, i + 1) } else { (i - m / 2, i + 1) }).collect(),
         ];
         for (si, q) in shapes.into_iter().enumerate() {
-            let market = Market { n, quotes: q, settle: si == 1, base: if si == 2 { Some(n - 1) } else { None } };
+            let market = Market { n, quotes: q, settle: si == 1, base: if si == 2 { Some(n - 1) } else { None }, rolls: vec![] };
             let alphabet: Vec<Act> = vec![
                 Act::Update { items: vec![(0, 1)], form: 0 },
                 Act::Update { items: vec![(m - 1, 2)], form: 1 },
@@ -693,7 +778,7 @@ pub fn cases(tier: Tier) -> Vec<Case> {
         for q in shapes {
             let mut patterns: Vec<Vec<u8>> = vec![vec![0; m], vec![1; m], vec![2; m]];
             for pos in [0, m / 2, m - 1] {
-                for f in [1u8, 2u8] {
+                for f in [1u8, 2u8, 3, 4, 5, 6] {
                     let mut p = vec![0u8; m];
                     p[pos] = f;
                     patterns.push(p);
@@ -715,9 +800,28 @@ pub fn cases(tier: Tier) -> Vec<Case> {
             let m = edges.len();
             for orient in 0..(1usize << m) {
                 let q: Vec<(usize, usize)> = edges.iter().enumerate().map(|(i, (a, b))| if orient & (1 << i) != 0 { (*b, *a) } else { (*a, *b) }).collect();
-                for fc in 0..3usize.pow(m as u32) {
+                // forms 0..2 everywhere; the forms whose variable carries another quote's automatic name (3..6) in every
+                // combination for <= 3 currencies (thorough: <= 4), and on one quote at a time beyond
+                let all7 = m >= 2 && (n <= 3 || (n == 4 && tier == Tier::Thorough));
+                let mut form_lists: Vec<Vec<u8>> = vec![];
+                let nf = if all7 { 7usize } else { 3 };
+                for fc in 0..nf.pow(m as u32) {
                     let mut c = fc;
-                    let forms: Vec<u8> = (0..m).map(|_| { let f = (c % 3) as u8; c /= 3; f }).collect();
+                    form_lists.push((0..m).map(|_| { let f = (c % nf) as u8; c /= nf; f }).collect());
+                }
+                if !all7 && m >= 2 && n <= 4 {
+                    for pos in 0..m {
+                        for af in 3..=6u8 {
+                            for fc in 0..3usize.pow(m as u32 - 1) {
+                                let mut c = fc;
+                                let mut fl: Vec<u8> = (0..m - 1).map(|_| { let f = (c % 3) as u8; c /= 3; f }).collect();
+                                fl.insert(pos, af);
+                                form_lists.push(fl);
+                            }
+                        }
+                    }
+                }
+                for forms in form_lists {
                     for base in std::iter::once(None).chain((0..n).map(Some)) {
                         if n == 5 && base.is_some() && base != Some(3) {
                             continue;
